@@ -14,8 +14,8 @@ CHECKS = {
          "Trusts the reference evaluator (kit/ref.go), the dataset writer (TypedBucket setters, as in boltz/query_test.go) and bbolt. Rows whose answer the property does not pin down (listed in DESIGN.md §9) evaluate to Unknown in the reference and are not asserted.",
          "DESIGN.md §3 C01"),
  "C02": (True, "exploration",
-         "property-based testing (rapid): generated datasets x queries (predicate, 0-5 sort keys, skip, limit) against a reference sort/page; strategy equivalence across index scan, sorting scan, explicit cursor providers and cursor iteration; metamorphic constant-sort-key relation",
-         "The ordered id list and the total count returned through five routes are compared for equality with the list the property prescribes (sort keys each asc/desc, nulls first ascending, id tie-break, max(skip,0) dropped, limit absent/negative/none = unbounded). Boundary classes of skip and limit are generated explicitly and their frequencies reported. Sampling over datasets of <= 8 rows.",
+         "property-based testing (rapid): generated datasets x queries (predicate, 0-5 sort keys, skip, limit) against a reference sort/page; strategy equivalence across index scan, sorting scan, explicit cursor providers, re-execution and cursor iteration, also through plain and extended child stores; metamorphic constant-sort-key relation",
+         "The ordered id list and the total count returned through five routes are compared for equality with the list the property prescribes (sort keys each asc/desc, nulls first ascending, id tie-break, max(skip,0) dropped, limit absent/negative/none = unbounded). Boundary classes of skip and limit are generated explicitly and their frequencies reported; a third of the datasets mix plain people with people that have child data and route queries through a child store (population = entities with child data) or an extended one (population = everyone). Sampling over datasets of <= 8 rows.",
          "Trusts kit/refsort.go and the reference predicate evaluator; predicates with rows of unspecified answer are skipped; <= 5 sort keys.",
          "DESIGN.md §3 C02"),
  "C17": (True, "exploration",
@@ -44,8 +44,8 @@ CHECKS = {
          "Trusts the model (kit/world.go) and bbolt's rollback. 'Changes nothing' is asserted per transaction.",
          "DESIGN.md §3 C03"),
  "C04": (True, "exploration",
-         "stateful property-based testing (rapid): model of references over five fk wirings plus a self reference, hostile id universe; invariants = exact back-reference sets and exact survivor sets after delete",
-         "Histories over a target store and six referrer stores (nullable / non-null fk index, fk constraint with cascade none / cascade delete, cascade-delete fk index, self-referencing fk index) with ids containing quotes, backslashes, filter keywords, blanks, brackets, newlines, tabs and a control byte. The model predicts missing-target and null rejections, reference-exists refusals and the exact set of entities removed by a cascade; entities, back-references and (on failure) the whole dump are compared after every transaction.",
+         "stateful property-based testing (rapid): model of references over five fk wirings, a self reference and references to a child store, hostile id universe; invariants = exact back-reference sets and exact survivor sets after delete",
+         "Histories over a target store (with a child store), and nine referrer stores (nullable / non-null fk index, fk constraint with cascade none / cascade delete, cascade-delete fk index, self-referencing fk index, and three wirings whose target is the child store), each history concentrating on 2-4 of them, with explicit re-parenting, stale-target and cascade-burst transactions, with ids containing quotes, backslashes, filter keywords, blanks, brackets, newlines, tabs and a control byte. The model predicts missing-target and null rejections, reference-exists refusals and the exact set of entities removed by a cascade; entities, back-references and (on failure) the whole dump are compared after every transaction.",
          "Self-reference-only deletes and cascade cycles are skipped as unspecified. Error classes via exported Is* helpers only.",
          "DESIGN.md §3 C04"),
  "C05": (True, "exploration",
@@ -55,7 +55,7 @@ CHECKS = {
          "DESIGN.md §3 C05"),
  "C06": (True, "exploration",
          "stateful property-based testing (rapid) over a kitchen-sink schema; oracle = whole-file traversal for any occurrence of the deleted id (independent walker + boltz.ValidateDeleted) and model equality after re-creation",
-         "Histories over stores combining unique, nullable-unique, set and fk indexes, fk constraints with cascade, plain and ref-counted links and a child store end with the delete of a chosen entity and the re-creation of the same id. After the delete commits the id must not occur anywhere in the file in any encoding; after re-creation all model invariants must hold for the fresh entity. The histogram reports which attachment kinds the victim had.",
+         "Histories over stores combining unique, nullable-unique, set and fk indexes, fk constraints with cascade, plain and ref-counted links (one declared on the child store) and a child store with its own unique index end with the delete of a chosen entity and the re-creation of the same id. After the delete commits the id must not occur anywhere in the file in any encoding; after re-creation all model invariants must hold for the fresh entity. The histogram reports which attachment kinds the victim had.",
          "Ids are disjoint from field values (otherwise an occurrence would be ambiguous). Trusts the model.",
          "DESIGN.md §3 C06"),
  "C13": (True, "exploration",
@@ -70,7 +70,7 @@ CHECKS = {
          "DESIGN.md §3 C14"),
  "C15": (True, "exploration",
          "stateful property-based testing (rapid): model of (parent part, optional child part) per id, operations routed through either store, plain and extended child stores",
-         "After every transaction of a generated history the populations returned by FindById / LoadById / QueryIds / IterateIds / IterateValidIds / IsEntityPresent through both stores, the shared and child-only fields, and the parent's unique and set indexes are compared with the model; parent constraints must reject child creates; a committed delete through either store must leave no occurrence of the id in the file.",
+         "After every transaction of a generated history (create / update / patch / delete / delete-where through either store; half of the child stores have a unique index of their own) the populations returned by FindById / LoadById / QueryIds (plain, sorted, with counts) / IterateIds (plain and paged) / IterateValidIds / IsEntityPresent through both stores, the shared and child-only fields, and the parent's unique and set indexes are compared with the model; parent constraints must reject child creates; a committed delete through either store must leave no occurrence of the id in the file.",
          "Uses a mapper that routes by IsEntityPresent and copies the written shared fields. Three unspecified operation shapes are skipped (listed in the evidence assumptions).",
          "DESIGN.md §3 C15"),
  "C16": (True, "exploration",
@@ -80,7 +80,7 @@ CHECKS = {
          "DESIGN.md §3 C16"),
  "C07": (True, "fault_enumeration",
          "property-based generation of transaction bodies (rapid) with exhaustive enumeration of failure kind x failure position x entry point per body; oracle = error reaches the caller, dump before == dump after, no callback after a barrier",
-         "For each generated (database, body) the runner enumerates 13 failure kinds (caller error, duplicate, empty value, missing fk target, two storage refusals, vetoes on create/update/delete incl. parent-store veto for a child op, child-store veto for a routed update and veto on a cascaded delete, pre-commit action error) at every position and through Db.Update, a nested Db.Update and Db.Batch; the rejected call and the transaction must return non-nil, the full dump must equal the baseline and no listener of any style, commit action or tx-complete listener may run; the unmodified body must then commit and match the model.",
+         "For each generated (database, body) the runner enumerates 19 failure kinds (caller error, duplicate, empty value, missing fk target, two storage refusals, oversized set element inside a field-restricted update, vetoes on create/update/patch/delete incl. parent-store veto for a child op, child-store veto for a routed update and veto on a cascaded delete, pre-commit action errors: first of two, on a derived system context, on an early-derived context) at every position and through Db.Update, a nested Db.Update and Db.Batch; the rejected call and the transaction must return non-nil, the full dump must equal the baseline and no listener of any style, commit action or tx-complete listener may run; the unmodified body must then commit and match the model.",
          "Failure kinds are the ones reachable without a hook below bbolt (no I/O fault injection). Bodies are sampled, kind x position per body is exhaustive.",
          "DESIGN.md §3 C07"),
  "C08": (True, "exploration",
@@ -89,13 +89,13 @@ CHECKS = {
          "Asynchronous callbacks are awaited with bounded polls (5-10 s ceilings); extended-store events for plain parents are not asserted.",
          "DESIGN.md §3 C08"),
  "C09": (True, "exploration",
-         "property-based testing (rapid): consistent databases built through the API, subsets of raw bbolt corruptions from 17 classes; oracle = completeness/soundness by token attribution, dump equality in check mode, model equality after one fix run",
-         "A generated API history yields a consistent database on which both modes must report nothing and change nothing; 1-5 raw corruptions (missing / extra / wrong-target unique entries, missing / extra / empty set-index entries and keys, missing / extra / dangling fk back-references and references, one-sided and dangling links, plus the unfixable duplicate-unique and null-in-non-nullable conflicts) are then written behind the API. The check-only run must report each, report nothing else, and leave the dump identical; one fix run followed by a re-check must report only the unfixable conflicts and the indexes, back-references and links must equal the model again.",
+         "property-based testing (rapid): consistent databases built through the API, subsets of raw bbolt corruptions from 19 classes on parent and child-store indexes; oracle = completeness/soundness by token attribution, dump equality in check mode, model equality after one fix run",
+         "A generated API history (through the parent stores and a plain or extended child store that has a unique index of its own; empty alias / reference values included) yields a consistent database on which both modes, run over every store and child store, must report nothing and change nothing; 1-5 raw corruptions (missing / extra / wrong-target unique entries, missing / extra / empty set-index entries and keys, missing / extra / dangling fk back-references and references, one-sided and dangling links, plus the unfixable duplicate-unique and null-in-non-nullable conflicts) are then written behind the API. The check-only run must report each, report nothing else, and leave the dump identical; one fix run followed by a re-check must report only the unfixable conflicts and the indexes, back-references and links must equal the model again.",
          "Reports are matched by the ids/values they mention. Empty link/back-reference container buckets inside an entity (created lazily even by reads) are ignored when comparing dumps; empty index keys are not.",
          "DESIGN.md §3 C09"),
  "C10": (True, "exploration",
          "property-based testing and fuzzing: grammar sentences with free operand types, token-level mutants, bounded-exhaustive token strings, random runes, foreign-character injections (rapid); native coverage-guided go fuzzing in the thorough tier; oracle = recover-guarded totality + independent rejection rule",
-         "Every generated input is pushed through ast.Parse (bolt and in-memory symbol tables), and every query that parses is evaluated through QueryIds, IterateIds, in-memory EvalBool, ValidateSymbolsArePublic and ObjectStore.QueryEntities over an empty store, all-null rows and a rich dataset, all under recover: a panic, or a result that is neither exactly a query nor exactly an error, is a violation. Independently of the parser, a well-typed sentence with one character that occurs in no lexer rule inserted at a token boundary must be rejected. All token strings of length <= 3 (quick) / <= 4 (thorough) over a 41-token alphabet are enumerated.",
+         "Every generated input is pushed through ast.Parse (bolt and in-memory symbol tables), and every query that parses is evaluated through QueryIds, IterateIds, in-memory EvalBool, ValidateSymbolsArePublic and ObjectStore.QueryEntities over an empty store, all-null rows and a rich dataset, all under recover: a panic, or a result that is neither exactly a query nor exactly an error, is a violation. Independently of the parser, a well-typed sentence with one character that occurs in no lexer rule inserted at a token boundary must be rejected. All token strings of length <= 3 (quick) / <= 4 (thorough) over a 41-token alphabet and a paging matrix (7 predicates x 6 sorts x 6 skips x 6 limits) are enumerated.",
          "Termination is only observed through the test deadline. The fuzz target caps input length and the number of and/or tokens because ANTLR prediction is exponential on long mixed chains (a performance matter, not claimed).",
          "DESIGN.md §3 C10"),
  "C12": (True, "exploration",
@@ -105,7 +105,7 @@ CHECKS = {
          "DESIGN.md §3 C12"),
  "C11": (True, "exploration",
          "property-based testing (rapid) with a round-trip oracle and an end-to-end query oracle; native go fuzzing of the codec in the thorough tier",
-         "Generated strings over the property's alphabet (biased to adjacent backslash/letter/quote patterns) are quoted, parsed back and used in =, !=, in, not in, contains, not contains queries over rows holding the string, near-misses and null, through the in-memory symbol route and a bolt store; every answer is compared with the set computed directly from the intended string. Sampling, not proof: a defect needing a string outside the alphabet/length bound can be missed.",
+         "Generated strings over the property's alphabet (biased to adjacent backslash/letter/quote patterns) are quoted, parsed back and used in =, !=, in, not in, contains, not contains queries on a string field and anyOf = / anyOf in / allOf != / anyOf contains queries on a string set, over rows holding the string, near-misses (incl. strings it is a prefix of) and null, through the in-memory symbol route and a bolt store; every answer is compared with the set computed directly from the intended string. Sampling, not proof: a defect needing a string outside the alphabet/length bound can be missed.",
          "Trusts the harness's quote() (written from the property statement), the in-memory ast.Symbols implementation and bbolt. Control characters other than LF TAB CR FF are outside the domain.",
          "DESIGN.md §3 C11"),
 }
